@@ -87,4 +87,10 @@ CLAIMS = {
         "note": "Trusted: Lean kernel; Hasher.Sound; the structural lemma that witnessSpec's grouped paths pass checkPaths is not yet a theorem (held by the differential + replay oracle); worker/page_walker sibling patching is not modelled.",
         "technique": "Lean 4 theorems (specified proofs verify/attest; update replay = new root) + canonical witness equality differential + real-verifier replay oracle",
     },
+    "C19": {
+        "text": "Ownership monitor defined in Lean (wfDetail / claim): every page of ln and bbn below the allocation frontier is claimed for exactly one role (leaf, branch, overflow page, free-list page, free page); T19 theorems: a successful claim is the first claim of an in-range page, a claimed page can never be claimed again (so an accepted image has no page both free and in use or used twice). The monitor runs on real directories after every commit / rollback / reopen of generated histories and counts unclaimed (leaked) pages, which must be 0; the API's reported occupancy must equal the full buckets found by the decoder and the pages the specification requires; identical fill/empty cycles must not move the frontier after cycle 4. Re-found and repaired F10 (overflow pages leaked by LeafUpdater::keep_up_to).",
+        "design_ref": "§4 C19",
+        "note": "Trusted: Lean kernel; decoders hand-written from the layouts (tied by the image run on real directories); T19.2 conservation law of the free-list model itself is a stretch item.",
+        "technique": "Lean 4 theorems on the page-ownership monitor + the monitor evaluated by the Lean driver on real directory images + frontier cycles",
+    },
 }
